@@ -309,8 +309,9 @@ def main(argv=None):
         if evidence['coverage'].get(k) is None:
             evidence['coverage'].pop(k, None)
     os.makedirs(os.path.join(VERIF, 'evidence'), exist_ok=True)
-    with open(os.path.join(VERIF, 'evidence', f'{prop}.json'), 'w') as fh:
-        json.dump(evidence, fh, indent=1, default=repr)
+    if not getattr(a, 'only', None):          # a partial run (--only) must not replace the record of the whole check
+        with open(os.path.join(VERIF, 'evidence', f'{prop}.json'), 'w') as fh:
+            json.dump(evidence, fh, indent=1, default=repr)
     for ln in lines:
         print(ln)
     for e in errors:
